@@ -106,7 +106,9 @@ func next(kind string, n int64) *big.Int {
 		vector = append(vector[:pos], Entry{kind, s})
 	} else {
 		if pos >= len(vector) {
-			panic("verifrt: replay vector exhausted (kind " + kind + ")")
+			// the engine stops a path at a failed assertion; the native run has
+			// nothing more to replay
+			panic(vectorExhausted{})
 		}
 		e := vector[pos]
 		if e.K != kind {
@@ -282,6 +284,9 @@ func Try(f func()) (panicked bool) {
 			if _, ok := e.(assumeViolated); ok {
 				panic(e)
 			}
+			if _, ok := e.(vectorExhausted); ok {
+				panic(e)
+			}
 			LastPanic = fmt.Sprint(e)
 			panicked = true
 		}
@@ -302,6 +307,9 @@ func RunNative(name string, h func()) (failed []string, panicMsg string, assumeF
 			if e := recover(); e != nil {
 				if _, ok := e.(assumeViolated); ok {
 					assumeFailed = true
+					return
+				}
+				if _, ok := e.(vectorExhausted); ok {
 					return
 				}
 				panicMsg = fmt.Sprint(e)
